@@ -1,5 +1,8 @@
 import BV.Lemmas.LedgerFlags
 import BV.Lemmas.LedgerSpec
+import BV.Lemmas.LedgerCall
+import BV.Lemmas.LedgerInterleave
+import BV.Lemmas.LedgerQueue
 /-!
 # C09 — every block obtained from a plugged-in allocator is returned to it exactly once
 
@@ -9,7 +12,8 @@ count-based reading `exactly_once`.
 
 Hypothesis of the whole file (oracle, checked at run time by the harness after every call):
 `ScopedBalanced` — temporaries of one call are allocated and freed inside it; in the model a call's
-temporaries are `scopedActs`.  For the multi-threaded entry points: no job panics.
+temporaries are `scopedActs` (proved, not assumed, for the IR logger's command queue:
+`command_queue_balanced`).  Multi-threaded entry points: per job fate (`multiFates`).
 -/
 namespace BV.Props.C09
 open BV.Ledger
@@ -148,6 +152,43 @@ theorem replace_frees_old (w : W) (hw : Inv w) (s : Slot) (hs : isGrowthSlot s =
   obtain ⟨suf, hsuf⟩ := acts_log_prefix (w.acts (growthSite w.m8 s)) later
   exact freed_not_live (via := w.m8) (by rw [hsuf]; exact List.mem_append_left _ hmem) hw2.bad
 
+/-- **replace_frees_old, whole call**: a `compress_stream` call is ANY number of `encode_data` rounds
+    (`callActs`); in whichever round a field is re-allocated (`get_brotli_storage`, `GetHashTableInternal`,
+    `RingBufferInitBuffer`, command growth — several times per call, several fields per round), every
+    block the field holds at the start of that round is freed through the instance's allocator and is
+    not live when the call returns -/
+theorem replace_frees_old_call (w : W) (hw : Inv w) (pre : List CsDelta) (d : CsDelta) (post : List CsDelta)
+    (s : Slot) (hs : d.grows s = true) (b : BlockId) (hb : b ∈ (w.acts (callActs w.m8 pre)).enc.get s) :
+    Ev.free w.m8 b ∈ (w.acts (callActs w.m8 (pre ++ d :: post))).log ∧
+    b ∉ (judge (w.acts (callActs w.m8 (pre ++ d :: post))).log).live := by
+  have hmem : Ev.free w.m8 b ∈ (w.acts (callActs w.m8 (pre ++ d :: post))).log := by
+    have e : callActs w.m8 (pre ++ d :: post) = callActs w.m8 pre ++ (roundActs w.m8 d ++ callActs w.m8 post) := by
+      simp [callActs]
+    rw [e, acts_append, acts_append]
+    obtain ⟨suf, hsuf⟩ := acts_log_prefix (((w.acts (callActs w.m8 pre))).acts (roundActs w.m8 d)) (callActs w.m8 post)
+    rw [hsuf]
+    apply List.mem_append_left
+    have := acts_freesFirst s b (roundActs w.m8 d) (w.acts (callActs w.m8 pre))
+      (round_freesFirst w.m8 d s hs) hb
+    rwa [acts_m8] at this
+  exact ⟨hmem, freed_not_live hmem (hw.acts _ (callActs_owned w.m8 _)).bad⟩
+
+/-- the same for one recorded call of a history, and for everything that follows it -/
+theorem replace_frees_old_cs (fl : Flags) (hown : fl.oneshotHasherOwn = true) (m8 q : Nat) (ops later : List Op)
+    (d : CsDelta) (w w' w'' : W) (h : run fl (W.init m8 q) ops = .ok w) (hc : step fl w (.cs d) = .ok w')
+    (hl : run fl w' later = .ok w'') (s : Slot) (hs : d.grows s = true) (b : BlockId) (hb : b ∈ w.enc.get s) :
+    Ev.free w.m8 b ∈ w'.log ∧ b ∉ (judge w'.log).live ∧ b ∉ (judge w''.log).live := by
+  have hw := run_inv_owned hown ops _ _ (Inv.init m8 q) h
+  have hw' := step_inv_owned hown hw hc
+  have hw'' := run_inv_owned hown later _ _ hw' hl
+  have hmem : Ev.free w.m8 b ∈ w'.log := by
+    obtain ⟨_, rfl⟩ := step_ok hc
+    rw [opBook_log, roundActs_eq_opActs]
+    exact acts_freesFirst s b _ w (round_freesFirst w.m8 d s hs) hb
+  refine ⟨hmem, freed_not_live hmem hw'.bad, ?_⟩
+  obtain ⟨suf, hsuf⟩ := run_log_prefix later w' w'' hl
+  exact freed_not_live (via := w.m8) (by rw [hsuf]; exact List.mem_append_left _ hmem) hw''.bad
+
 /-! ## `entry_point_releases_all` — one theorem per entry point
 
 `body` is an ARBITRARY list of body calls (`compress_stream` in any mode incl. failed calls and calls
@@ -235,7 +276,9 @@ macro "ep_slots_sym" : tactic =>
     Rust and C ABI): `compress_part` in either arm, without a dictionary (job 0), with a dictionary built
     in place, or with the pre-computed hasher cloned for this job by the coordinator — kept, or destroyed
     and rebuilt when the dictionary is truncated; optionally carrying `CompressMultiSlice`'s input copy.
-    Hypothesis of the model: no job panics (the join-failure / poisoned-lock returns are not modelled). -/
+    EXACT hypothesis: the coordinator joined this job (`join()` returned `Ok`, or it is the last job, run
+    inline, and every earlier join returned `Ok`) — i.e. `multiFates t p` gives `joined` for it.  What
+    happens otherwise is `job_panicked_strands_what_it_held` / `job_unjoined_strands_at_most_output`. -/
 theorem entry_point_releases_all_job (m8 q : Nat) (slice ok : Bool) (body : List Op)
     (hb : ∀ op ∈ body, op.isBody = true) (w : W) :
     -- job without dictionary
@@ -277,6 +320,209 @@ theorem entry_point_releases_all_job (m8 q : Nat) (slice ok : Bool) (body : List
       | (have h' : run Flags.allTrue (W.init m8 q) ([.allocInput, .mkExt (x :: xs), .allocMem, .create false, .setDictExt ring fresh] ++ body ++ [.cleanup, .freeMem, .freeInput]) = .ok w := by
            simpa [epJob, condCleanup, Flags.allTrue] using h
          exact ep_releases allTrue_sitesOk m8 q _ body _ hb (by ep_slots_sym) h')
+
+/-! ## One callee of `ScopedBalanced`, proved: the IR logger's command queue -/
+
+/-- **command_queue_balanced**: the allocation skeleton of `LogMetaBlock` — `k` helper blocks,
+    `CommandQueue::new` for ANY number of commands, ANY number of pushes (each push on a full queue
+    allocates the doubled queue and frees the old one), `CommandQueue::free` — keeps the ledger
+    invariant, leaves every slot of the encoder exactly as it was, loses nothing, leaves the live set
+    unchanged, and never ends over-full (so `command_queue.free(callback).unwrap()` cannot panic) -/
+theorem command_queue_balanced (w : W) (hw : Inv w) (ht : w.enc.tmp = []) (ht2 : w.enc.tmp2 = [])
+    (haux : w.enc.aux = []) (k numCommands pushes : Nat) :
+    Inv (logMetaBlockIR w k numCommands pushes).1 ∧ (logMetaBlockIR w k numCommands pushes).1.enc = w.enc ∧
+    (logMetaBlockIR w k numCommands pushes).1.lost = w.lost ∧ (logMetaBlockIR w k numCommands pushes).2 = true ∧
+    ∀ b, (judge (logMetaBlockIR w k numCommands pushes).1.log).live.count b = (judge w.log).live.count b := by
+  have hw1 : Inv (w.acts [.alloc w.m8 .aux k]) := hw.acts _ (by intro a ha; simp at ha; subst ha; simp [Act.owned])
+  have hfr1 : ∀ t, t ≠ Slot.aux → (w.acts [.alloc w.m8 .aux k]).enc.get t = w.enc.get t := by
+    intro t h1
+    apply acts_frame
+    intro a ha; simp at ha; subst ha
+    simp [Act.writes]; exact fun h => h1 h.symm
+  have ht' : (w.acts [.alloc w.m8 .aux k]).enc.tmp = [] := by have := hfr1 .tmp (by decide); simpa [Enc.get, ht] using this
+  have ht2' : (w.acts [.alloc w.m8 .aux k]).enc.tmp2 = [] := by have := hfr1 .tmp2 (by decide); simpa [Enc.get, ht2] using this
+  obtain ⟨hq1, hq2, hq3, hq4, hq5, _⟩ := queue_balanced _ hw1 ht' ht2' numCommands pushes
+  have hinv : Inv (logMetaBlockIR w k numCommands pushes).1 :=
+    hq1.acts _ (by intro a ha; simp at ha; subst ha; simp [Act.owned])
+  have henc : (logMetaBlockIR w k numCommands pushes).1.enc = w.enc := by
+    apply Enc.ext_get
+    intro t
+    by_cases h1 : t = .aux
+    · subst h1; simp [logMetaBlockIR, W.acts, W.act, Enc.get, Enc.set, haux]
+    · have : (logMetaBlockIR w k numCommands pushes).1.enc.get t =
+          (cqFree (cqPushN pushes (cqNew (w.acts [.alloc w.m8 .aux k]) numCommands))).1.enc.get t := by
+        apply acts_frame
+        intro a ha; simp at ha; subst ha
+        simp [Act.writes]; exact fun h => h1 h.symm
+      rw [this, hq2, hfr1 t h1]
+  have hlost : (logMetaBlockIR w k numCommands pushes).1.lost = w.lost := by
+    have : (logMetaBlockIR w k numCommands pushes).1.lost =
+        (cqFree (cqPushN pushes (cqNew (w.acts [.alloc w.m8 .aux k]) numCommands))).1.lost := by
+      simp [logMetaBlockIR, W.acts, W.act]
+    rw [this, hq3]; simp [W.acts, W.act]
+  refine ⟨hinv, henc, hlost, hq5, ?_⟩
+  intro b
+  rw [hinv.live b, hw.live b, henc, hlost]
+
+/-- non-vacuity: 100 commands (queue of 110 slots), 500 pushes: three growths, nothing left, not over-full -/
+example : (logMetaBlockIR (W.init 0 5) 6 100 500).2 = true ∧
+    (judge (logMetaBlockIR (W.init 0 5) 6 100 500).1.log).allocs = 10 ∧
+    (judge (logMetaBlockIR (W.init 0 5) 6 100 500).1.log).frees = 10 ∧
+    (cqPushN 500 (cqNew (W.init 0 5) 100)).2.cap = 880 := by decide +kernel
+
+/-! ## The early returns of `CompressMulti` (a job panicked / a lock is poisoned)
+
+`entry_point_releases_all_job` above is about a job the coordinator **joined** (`join()` returned `Ok`),
+which is the case for every job iff no job panics.  When job `p` panics, `CompressMulti` returns from
+inside the join loop (`multiFates`): the jobs before `p` were joined (theorem above), job `p` unwound
+(`job_panicked_strands_what_it_held`), the jobs after `p` ran to completion but nobody takes their result
+(`job_unjoined_strands_at_most_output`). -/
+
+theorem held_mem_input (e : Enc) (h : ∀ s, (s ≠ .mem ∧ s ≠ .input) → e.get s = []) (b : BlockId) :
+    e.held.count b = e.mem.count b + e.input.count b := by
+  have h1 := h .storage (by decide); have h2 := h .commands (by decide); have h3 := h .ring (by decide)
+  have h4 := h .hasher (by decide); have h5 := h .table (by decide); have h6 := h .cbuf (by decide)
+  have h7 := h .lbuf (by decide); have h8 := h .ext (by decide); have h9 := h .self (by decide)
+  have h12 := h .tmp (by decide); have h13 := h .tmp2 (by decide); have h14 := h .aux (by decide)
+  simp only [Enc.get] at h1 h2 h3 h4 h5 h6 h7 h8 h9 h12 h13 h14
+  simp [Enc.held, h1, h2, h3, h4, h5, h6, h7, h8, h9, h12, h13, h14, List.count_append]
+
+/-- what an un-joined job leaves behind: the ledger is clean and the only blocks still live are the
+    job's output block and (allocator 0 of `CompressMultiSlice`) the input copy -/
+def StrandsAtMostOutput (w : W) : Prop :=
+  (judge w.log).clean = true ∧ ∀ b, (judge w.log).live.count b = w.enc.mem.count b + w.enc.input.count b
+
+macro "ep_slots_keep" : tactic =>
+  `(tactic| (intro s hs; cases s <;> simp at hs <;>
+      first
+      | (left; intro b; (cases b <;>
+          simp [flagAfter_cons, flagAfter_nil, opFlag_cleanup, opFlag_freeMem, opFlag_freeInput, Slot.isField]); done)
+      | (right; refine ⟨rfl, ?_, ?_⟩ <;>
+          (simp [flagAfter_cons, flagAfter_nil, opFlag_create, opFlag_allocMem, opFlag_allocInput, opFlag_cleanup,
+            opFlag_freeMem, opFlag_freeInput, opFlag_mkExt, opFlag_setDictExt_ext, Slot.isField]
+           try (first | exact opFlag_setDict _ _ _ rfl _ _ | exact opFlag_setDictExt _ _ rfl _ _)))))
+
+theorem strands_of_empty {w : W} (h : Inv w ∧ w.lost = [] ∧ ∀ s, (s ≠ Slot.mem ∧ s ≠ Slot.input) → w.enc.get s = []) :
+    StrandsAtMostOutput w := by
+  obtain ⟨hi, hl, he⟩ := h
+  refine ⟨(clean_iff_bad _).mpr hi.bad, fun b => ?_⟩
+  rw [hi.live b, hl, held_mem_input _ he b]
+  simp
+
+/-- **un-joined job** (a job after the panicking one, or any job when `CompressMulti` returns before the
+    join loop): whatever it did, only its output block / the input copy can remain; in the error arm of
+    `compress_part` the output block is freed by the job itself -/
+theorem job_unjoined_strands_at_most_output (m8 q : Nat) (slice ok : Bool) (body : List Op)
+    (hb : ∀ op ∈ body, op.isBody = true) (w : W) :
+    (run Flags.allTrue (W.init m8 q) (epJob Flags.unjoined slice [] none body ok) = .ok w → StrandsAtMostOutput w) ∧
+    (∀ ring fresh, run Flags.allTrue (W.init m8 q) (epJob Flags.unjoined slice [] (some (ring, fresh)) body ok) = .ok w →
+      StrandsAtMostOutput w) ∧
+    (∀ x xs ring fresh, run Flags.allTrue (W.init m8 q) (epJob Flags.unjoined slice (x :: xs) (some (ring, fresh)) body ok) = .ok w →
+      StrandsAtMostOutput w) := by
+  refine ⟨?_, ?_, ?_⟩
+  · intro h
+    cases slice <;> cases ok
+    all_goals
+      first
+      | (have h' : run Flags.allTrue (W.init m8 q) ([.allocMem, .create false] ++ body ++ [.cleanup]) = .ok w := by
+           simpa [epJob, condCleanup, Flags.unjoined, Flags.allTrue] using h
+         exact strands_of_empty (ep_empty_slots allTrue_sitesOk m8 q _ body _ hb _ (by ep_slots_keep) h'))
+      | (have h' : run Flags.allTrue (W.init m8 q) ([.allocMem, .create false] ++ body ++ [.cleanup, .freeMem]) = .ok w := by
+           simpa [epJob, condCleanup, Flags.unjoined, Flags.allTrue] using h
+         exact strands_of_empty (ep_empty_slots allTrue_sitesOk m8 q _ body _ hb _ (by ep_slots_keep) h'))
+      | (have h' : run Flags.allTrue (W.init m8 q) ([.allocInput, .allocMem, .create false] ++ body ++ [.cleanup]) = .ok w := by
+           simpa [epJob, condCleanup, Flags.unjoined, Flags.allTrue] using h
+         exact strands_of_empty (ep_empty_slots allTrue_sitesOk m8 q _ body _ hb _ (by ep_slots_keep) h'))
+      | (have h' : run Flags.allTrue (W.init m8 q) ([.allocInput, .allocMem, .create false] ++ body ++ [.cleanup, .freeMem]) = .ok w := by
+           simpa [epJob, condCleanup, Flags.unjoined, Flags.allTrue] using h
+         exact strands_of_empty (ep_empty_slots allTrue_sitesOk m8 q _ body _ hb _ (by ep_slots_keep) h'))
+  · intro ring fresh h
+    cases slice <;> cases ok
+    all_goals
+      first
+      | (have h' : run Flags.allTrue (W.init m8 q) ([.allocMem, .create false, .setDict ring fresh] ++ body ++ [.cleanup]) = .ok w := by
+           simpa [epJob, condCleanup, Flags.unjoined, Flags.allTrue] using h
+         exact strands_of_empty (ep_empty_slots allTrue_sitesOk m8 q _ body _ hb _ (by ep_slots_keep) h'))
+      | (have h' : run Flags.allTrue (W.init m8 q) ([.allocMem, .create false, .setDict ring fresh] ++ body ++ [.cleanup, .freeMem]) = .ok w := by
+           simpa [epJob, condCleanup, Flags.unjoined, Flags.allTrue] using h
+         exact strands_of_empty (ep_empty_slots allTrue_sitesOk m8 q _ body _ hb _ (by ep_slots_keep) h'))
+      | (have h' : run Flags.allTrue (W.init m8 q) ([.allocInput, .allocMem, .create false, .setDict ring fresh] ++ body ++ [.cleanup]) = .ok w := by
+           simpa [epJob, condCleanup, Flags.unjoined, Flags.allTrue] using h
+         exact strands_of_empty (ep_empty_slots allTrue_sitesOk m8 q _ body _ hb _ (by ep_slots_keep) h'))
+      | (have h' : run Flags.allTrue (W.init m8 q) ([.allocInput, .allocMem, .create false, .setDict ring fresh] ++ body ++ [.cleanup, .freeMem]) = .ok w := by
+           simpa [epJob, condCleanup, Flags.unjoined, Flags.allTrue] using h
+         exact strands_of_empty (ep_empty_slots allTrue_sitesOk m8 q _ body _ hb _ (by ep_slots_keep) h'))
+  · intro x xs ring fresh h
+    cases slice <;> cases ok
+    all_goals
+      first
+      | (have h' : run Flags.allTrue (W.init m8 q) ([.mkExt (x :: xs), .allocMem, .create false, .setDictExt ring fresh] ++ body ++ [.cleanup]) = .ok w := by
+           simpa [epJob, condCleanup, Flags.unjoined, Flags.allTrue] using h
+         exact strands_of_empty (ep_empty_slots allTrue_sitesOk m8 q _ body _ hb _ (by ep_slots_keep) h'))
+      | (have h' : run Flags.allTrue (W.init m8 q) ([.mkExt (x :: xs), .allocMem, .create false, .setDictExt ring fresh] ++ body ++ [.cleanup, .freeMem]) = .ok w := by
+           simpa [epJob, condCleanup, Flags.unjoined, Flags.allTrue] using h
+         exact strands_of_empty (ep_empty_slots allTrue_sitesOk m8 q _ body _ hb _ (by ep_slots_keep) h'))
+      | (have h' : run Flags.allTrue (W.init m8 q) ([.allocInput, .mkExt (x :: xs), .allocMem, .create false, .setDictExt ring fresh] ++ body ++ [.cleanup]) = .ok w := by
+           simpa [epJob, condCleanup, Flags.unjoined, Flags.allTrue] using h
+         exact strands_of_empty (ep_empty_slots allTrue_sitesOk m8 q _ body _ hb _ (by ep_slots_keep) h'))
+      | (have h' : run Flags.allTrue (W.init m8 q) ([.allocInput, .mkExt (x :: xs), .allocMem, .create false, .setDictExt ring fresh] ++ body ++ [.cleanup, .freeMem]) = .ok w := by
+           simpa [epJob, condCleanup, Flags.unjoined, Flags.allTrue] using h
+         exact strands_of_empty (ep_empty_slots allTrue_sitesOk m8 q _ body _ hb _ (by ep_slots_keep) h'))
+
+/-- **panicking job**: at whatever point of whatever history the thread unwinds, every block it holds is
+    dropped without `free_cell`: the ledger stays clean (nothing is freed twice or elsewhere), nothing is
+    referenced any more, and exactly the blocks it held are stranded -/
+theorem job_panicked_strands_what_it_held (fl : Flags) (hown : fl.oneshotHasherOwn = true) (m8 q : Nat)
+    (done : List Op) (w : W) (h : run fl (W.init m8 q) done = .ok w) :
+    (judge (w.acts abandonAllActs).log).clean = true ∧ (w.acts abandonAllActs).enc.held = [] ∧
+    (w.acts abandonAllActs).log = w.log ∧
+    ∀ b, (judge (w.acts abandonAllActs).log).live.count b = w.enc.held.count b + w.lost.count b := by
+  have hw := run_inv_owned hown done _ _ (Inv.init m8 q) h
+  have hlog : (w.acts abandonAllActs).log = w.log := by simp [abandonAllActs, W.acts, W.act]
+  refine ⟨?_, ?_, hlog, ?_⟩
+  · rw [hlog]; exact (clean_iff_bad _).mpr hw.bad
+  · apply held_nil_of_slots
+    intro s
+    cases s <;> simp [abandonAllActs, W.acts, W.act, Enc.get, Enc.set]
+  · intro b
+    rw [hlog]
+    exact hw.live b
+
+/-- the fates of the `t` jobs when job `p` panics (`none`: nobody panics): which theorem applies to which
+    allocator -/
+theorem multi_fates (t : Nat) (p : Option Nat) (i : Nat) (hi : i < t) :
+    (multiFates t p)[i]? = some (match p with
+      | none => JobFate.joined
+      | some k => if i < k then .joined else if i = k then .panicked else .unjoined) := by
+  cases p <;> simp [multiFates, hi]
+
+example : multiFates 4 (some 1) = [.joined, .panicked, .unjoined, .unjoined] := by decide
+example : multiFates 3 none = [.joined, .joined, .joined] := by decide
+
+/-! ## Interleavings -/
+
+/-- **interleaving**: however the events of the per-thread allocators are interleaved in time, the whole
+    log is clean and balanced iff the sub-log of every allocator is (a block's identity contains its
+    allocator, so the sub-logs cannot interfere) -/
+theorem interleaving_clean_iff (log : List Ev) :
+    ((judge log).clean = true ∧ (judge log).live = []) ↔
+      ∀ a, (judge (proj a log)).clean = true ∧ (judge (proj a log)).live = [] := by
+  simp only [clean_iff_bad]
+  exact interleaving_clean log
+
+/-- given the per-allocator logs `logs a` (thread `a` and the coordinator acting on allocator `a`), ANY
+    log whose projections are these — any interleaving — releases everything iff each of them does -/
+theorem any_interleaving (logs : Nat → List Ev) (log : List Ev) (hproj : ∀ a, proj a log = logs a) :
+    ((judge log).clean = true ∧ (judge log).live = []) ↔
+      ∀ a, (judge (logs a)).clean = true ∧ (judge (logs a)).live = [] := by
+  rw [interleaving_clean_iff]
+  simp [hproj]
+
+/-- two allocators, two interleavings of the same sub-logs, one verdict; and a leak in one sub-log is a
+    leak of every interleaving -/
+example : (judge [.alloc ⟨0, 0⟩, .alloc ⟨1, 0⟩, .free 1 ⟨1, 0⟩, .free 0 ⟨0, 0⟩]).live = [] ∧
+    (judge [.alloc ⟨1, 0⟩, .free 1 ⟨1, 0⟩, .alloc ⟨0, 0⟩, .free 0 ⟨0, 0⟩]).live = [] ∧
+    (judge (proj 1 [.alloc ⟨0, 0⟩, .alloc ⟨1, 0⟩, .free 0 ⟨0, 0⟩])).live = [⟨1, 0⟩] := by decide
 
 /-! ## `fast_path_buffers_balanced` -/
 
